@@ -516,3 +516,62 @@ func (g *G) Merge() ([]Tok, *ast.MergeStatement) {
 	}
 	return t, s
 }
+
+// Alter draws ALTER TABLE with one operation (the forms the AST models with their own fields).
+func (g *G) Alter() ([]Tok, *ast.AlterStatement) {
+	g.use("alter_table")
+	tb := bare("t1")
+	if g.F.QuotedDDLNames {
+		tb = g.pick(tblPool, "altertbl")
+	}
+	if g.F.AlterQualified && g.chance(25, "alterschema") {
+		tb = ident{"s1 . " + tb.src, "s1." + tb.name}
+	}
+	s := &ast.AlterStatement{Type: ast.AlterTypeTable, Name: tb.name}
+	op := &ast.AlterTableOperation{}
+	t := cat(g.kw("ALTER", "TABLE"), nameToks(tb))
+	switch g.intn(6, "alterop") {
+	case 0:
+		c := g.ddlColumn()
+		ty := ddlTypes[g.intn(len(ddlTypes), "ddltype")]
+		cd := &ast.ColumnDef{Name: c.name, Type: ty}
+		t = cat(t, g.kw("ADD", "COLUMN"), sym(c.src), typeToks(ty))
+		if g.chance(40, "addnotnull") {
+			t = cat(t, g.kw("NOT", "NULL"))
+			cd.Constraints = append(cd.Constraints, ast.ColumnConstraint{Type: "NOT NULL"})
+		}
+		op.Type, op.ColumnDef = ast.AddColumn, cd
+	case 1:
+		c := g.ddlColumn()
+		t = cat(t, g.kw("DROP", "COLUMN"), sym(c.src))
+		op.Type, op.ColumnName = ast.DropColumn, &ast.Ident{Name: c.name}
+		if g.chance(30, "dropcascade") {
+			t = cat(t, g.kw("CASCADE"))
+			op.CascadeDrops = true
+		}
+	case 2:
+		n := bare("t_renamed")
+		t = cat(t, g.kw("RENAME", "TO"), sym(n.src))
+		op.Type, op.NewTableName = ast.RenameTable, ast.ObjectName{Name: n.name}
+	case 3:
+		a, b := g.ddlColumn(), g.ddlColumn()
+		t = cat(t, g.kw("RENAME", "COLUMN"), sym(a.src), g.kw("TO"), sym(b.src))
+		op.Type, op.ColumnName, op.NewColumnName = ast.RenameColumn, &ast.Ident{Name: a.name}, &ast.Ident{Name: b.name}
+	case 4:
+		nm := g.pick(objPool, "constraintname")
+		ct, cn := g.colList(1+g.intn(2, "nuq"), "uqcol")
+		kind := "UNIQUE"
+		kt := g.kw("UNIQUE")
+		if g.chance(40, "alterpk") {
+			kind, kt = "PRIMARY KEY", g.kw("PRIMARY", "KEY")
+		}
+		t = cat(t, g.kw("ADD", "CONSTRAINT"), sym(nm.src), kt, ct)
+		op.Type, op.Constraint = ast.AddConstraint, &ast.TableConstraint{Name: nm.name, Type: kind, Columns: cn}
+	default:
+		nm := g.pick(objPool, "constraintname")
+		t = cat(t, g.kw("DROP", "CONSTRAINT"), sym(nm.src))
+		op.Type, op.ConstraintName = ast.DropConstraint, &ast.Ident{Name: nm.name}
+	}
+	s.Operation = op
+	return t, s
+}
